@@ -728,3 +728,71 @@ Example ex_double_callback_panics :
   let s0 := run Vall [Submit 1 (mkbid 1 dA); EngineTake 1; Lookup 0 dA 1%Z; Callback 0] in
   panicked (callback 7 (with_streams (nset 7 (SCalling 1 dA 1%Z) (streams s0)) s0)) = true.
 Proof. vm_compute. reflexivity. Qed.
+
+(* ---- liveness of delivery, malformed decisions, and an instance under the published rules ------ *)
+(* positive delivery: a well-formed decision whose digest has an entry reaches exactly that call's channel *)
+Theorem delivered_step V evs sid d st ch :
+  let s := run V evs in
+  sget sid s = SIdle -> vresp V d st = true -> pget d (pending s) = Some ch ->
+  let s' := step V (step V s (Lookup sid d st)) (Callback sid) in
+  cget ch s' = CFull st /\ In (EDeliver ch d st) (eff s') /\ pget d (pending s') = None /\
+  sget sid s' = SIdle /\ panicked s' = false /\
+  (forall ch', ch' <> ch -> cget ch' s' = cget ch' s).
+Proof.
+  cbn. intros Hs Hv Hp. pose proof (run_inv V evs) as I. pose proof (inv_nopanic _ _ I) as Np.
+  assert (He : cget ch (run V evs) = CEmpty).
+  { apply (inv_pending_empty _ _ I). apply In_vals. exists d. now apply pget_In. }
+  set (s := run V evs) in *.
+  set (s1 := with_pending (pdel d (pending s)) (with_streams (nset sid (SCalling ch d st) (streams s)) s)).
+  assert (E1 : step V s (Lookup sid d st) = s1).
+  { unfold step, lookup. now rewrite Np, Hs, Hv, Hp. }
+  rewrite E1.
+  assert (Hs1 : sget sid s1 = SCalling ch d st) by (unfold sget, s1; cbn; now rewrite nget_nset_eq).
+  set (s2 := add_eff (EDeliver ch d st)
+               (with_chans (nset ch (CFull st) (chans s1)) (with_streams (nset sid SIdle (streams s1)) s1))).
+  assert (E2 : step V s1 (Callback sid) = s2).
+  { unfold step, callback. change (panicked s1) with (panicked s). rewrite Np, Hs1.
+    change (cget ch s1) with (cget ch s). now rewrite He. }
+  rewrite E2. split; [|split; [|split; [|split; [|split]]]].
+  - rewrite (cget_nset _ ch (CFull st) s1) by reflexivity. now rewrite N.eqb_refl.
+  - now left.
+  - cbn. apply pget_pdel_same.
+  - unfold sget. cbn. now rewrite nget_nset_eq.
+  - exact Np.
+  - intros ch' Hne. rewrite (cget_nset _ ch (CFull st) s1) by reflexivity.
+    destruct (N.eqb_spec ch' ch); [congruence|reflexivity].
+Qed.
+
+(* a malformed decision ends that stream and touches nothing else *)
+Theorem malformed_step V s sid d st :
+  panicked s = false -> sget sid s = SIdle -> vresp V d st = false ->
+  let s' := step V s (Lookup sid d st) in
+  pending s' = pending s /\ chans s' = chans s /\ calls s' = calls s /\ sget sid s' = SEnded /\
+  (forall x, x <> sid -> sget x s' = sget x s) /\ eff s' = EStreamEnd sid true :: eff s /\ panicked s' = false.
+Proof.
+  intros Hp Hs Hv. unfold step, lookup. rewrite Hp, Hs, Hv. cbn. split; [reflexivity|]. split; [reflexivity|]. split; [reflexivity|].
+  split; [|split; [|split; [reflexivity|exact Hp]]].
+  - unfold sget. cbn. now rewrite nget_nset_eq.
+  - intros x Hx. unfold sget. cbn. rewrite nget_nset_neq by congruence. reflexivity.
+Qed.
+
+(* an ended stream processes nothing further *)
+Theorem ended_stream_inert V s sid d st :
+  sget sid s = SEnded -> step V s (Lookup sid d st) = s /\ step V s (Callback sid) = s.
+Proof.
+  intros Hs. unfold step, lookup, callback. rewrite Hs. destruct (panicked s); split; reflexivity.
+Qed.
+
+(* non-vacuity for the validator of the statements: the published rules accept this bid, and the whole
+   life cycle runs under rules_validators *)
+Definition rbid (tag : N) (d : bytes) : bid :=
+  {| b_tx := repeat 97 64 ++ [44] ++ repeat 66 64; b_amt := [49; 48 + tag]; b_bn := 7%Z; b_ds := 8%Z; b_de := 9%Z;
+     b_dig := d; b_sig := [] |}.
+Example ex_rules_validators :
+  vbid rules_validators (to_engine (rbid 1 [1; 2; 3])) = true /\
+  vbid rules_validators (to_engine {| b_tx := [97]; b_amt := [49]; b_bn := 7%Z; b_ds := 8%Z; b_de := 9%Z; b_dig := [1]; b_sig := [] |}) = false /\
+  let s := run rules_validators [Submit 1 (rbid 1 [1; 2; 3]); EngineTake 1; Lookup 0 [1; 2; 3] 2%Z; Callback 0;
+                                 Lookup 0 [1; 2; 3] 1%Z; Callback 0; Lookup 0 [9] 3%Z] in
+  cget 1 s = CFull 2%Z /\ delivered s = [1] /\ emitted s = [(1, to_engine (rbid 1 [1; 2; 3]))] /\
+  pending s = [] /\ sget 0 s = SEnded /\ panicked s = false.
+Proof. vm_compute. repeat split. Qed.
